@@ -89,6 +89,10 @@ func main() {
 				if !ok {
 					return "unrecognised:no-such-function"
 				}
+				if which == 2 {
+					_, _, wr, _ := sa.analyse3(e.fn)
+					return wr
+				}
 				if which == 0 {
 					return l
 				}
@@ -99,6 +103,16 @@ func main() {
 	}
 	r.Register("locks", func(a []string) string { return static(a, 0) })
 	r.Register("unlocked", func(a []string) string { return static(a, 1) })
+	r.Register("writes", func(a []string) string { return static(a, 2) })
+	r.Register("gocensus", func(a []string) string {
+		if sa == nil && saErr == nil {
+			sa, saErr = loadStatic(p.repo)
+		}
+		if saErr != nil {
+			return "static-load-failed:" + saErr.Error()
+		}
+		return sa.goCensus()
+	})
 	r.Register("mix", func(a []string) string {
 		if len(a) != 2 {
 			return "badargs"
@@ -127,8 +141,10 @@ func main() {
 		}
 		r.Do("locks", e.unit, e.ops)
 		r.Do("unlocked", e.unit, e.ops)
+		r.Do("writes", e.unit, e.ops)
 	}
 	if sa != nil {
+		r.Do("gocensus")
 		for k, n := range sa.unrec {
 			r.Stat("static.unrecognised."+k, int64(n))
 		}
